@@ -232,6 +232,11 @@ func (pkg *pkg) Add(call *call) (string, error) {
 			continue
 		}
 		generator := pkg.generators[p.Name()]
+		for i, arg := range call.Args {
+			if mentionsTypeParam(arg, make(map[types.Type]bool)) {
+				return "", fmt.Errorf("Add Error: %s: argument %d of %s is of type %s, which has a type parameter: a function is generated for given types only", p.Name(), i, call.Name, arg)
+			}
+		}
 		if allUntypedNil(call.Args) {
 			return "", fmt.Errorf("Add Error: %s: %s is only given untyped nil, which does not say what type to generate for", p.Name(), call.Name)
 		}
@@ -242,6 +247,49 @@ func (pkg *pkg) Add(call *call) (string, error) {
 		return name, nil
 	}
 	return "", nil
+}
+
+// mentionsTypeParam returns whether a type parameter of a generic function or type is part of typ.
+func mentionsTypeParam(typ types.Type, visited map[types.Type]bool) bool {
+	if typ == nil || visited[typ] {
+		return false
+	}
+	visited[typ] = true
+	switch t := typ.(type) {
+	case *types.TypeParam:
+		return true
+	case *types.Pointer:
+		return mentionsTypeParam(t.Elem(), visited)
+	case *types.Slice:
+		return mentionsTypeParam(t.Elem(), visited)
+	case *types.Array:
+		return mentionsTypeParam(t.Elem(), visited)
+	case *types.Chan:
+		return mentionsTypeParam(t.Elem(), visited)
+	case *types.Map:
+		return mentionsTypeParam(t.Key(), visited) || mentionsTypeParam(t.Elem(), visited)
+	case *types.Struct:
+		for i := 0; i < t.NumFields(); i++ {
+			if mentionsTypeParam(t.Field(i).Type(), visited) {
+				return true
+			}
+		}
+	case *types.Tuple:
+		for i := 0; i < t.Len(); i++ {
+			if mentionsTypeParam(t.At(i).Type(), visited) {
+				return true
+			}
+		}
+	case *types.Signature:
+		return mentionsTypeParam(t.Params(), visited) || mentionsTypeParam(t.Results(), visited)
+	case *types.Named:
+		for i := 0; i < t.TypeArgs().Len(); i++ {
+			if mentionsTypeParam(t.TypeArgs().At(i), visited) {
+				return true
+			}
+		}
+	}
+	return false
 }
 
 // allUntypedNil returns whether there are arguments and every one of them is the untyped nil.
